@@ -84,6 +84,7 @@ def shards(tier):
     sh = [("mut", i, min(i + CHUNK, n)) for i in range(0, n, CHUNK)]
     sh += [("defaults", k, d) for k in DECL_KINDS for d in range(len(DEFAULTS))]
     sh += [("history", i) for i in range(len(CALL_KINDS))]
+    sh += [("reparse", i) for i in range(len(REPARSE_TYPES))]
     return sh
 
 
@@ -93,6 +94,8 @@ def run_shard(shard, tier):
         _mutation(acc, shard[1], shard[2], tier)
     elif shard[0] == "defaults":
         _defaults(acc, shard[1], shard[2], tier)
+    elif shard[0] == "reparse":
+        _reparse(acc, shard[1], tier)
     else:
         _history(acc, shard[1], tier)
     return acc
@@ -116,7 +119,7 @@ def _mutation(acc, lo, hi, tier):
                 pass
         seen = set()
         vals = [v for v in vals if not (v in seen or seen.add(v))]
-        forms = ["tt"] if sp[0] != "dc" else ["tt", "dcfrom"]
+        forms = ["tt"] if sp[0] != "dc" else ["tt", "dcfrom", "dcposkw"]
         if sp[0] in ("t", "g", "gc"):
             forms += ["field", "param", "args", "kwargs"]
         for form in forms:
@@ -272,6 +275,59 @@ def _defaults(acc, kind, di, tier):
                 acc.violation(fp, f"{kind} with default {dexpr}: {bad[0]}", script)
             elif acc.states % 29 == 0:
                 acc.sample(dict(declaration=kind, default=dexpr, history=list(hist), outcome="isolated"))
+
+
+# ------------------------------------------------------------------------------------------------ (b')
+# an immutable input (text, bytes, tuple of scalars) is parsed, the result is mutated in place at every nesting level, and the
+# same input is parsed again: the second result equals the first one as it was -- nothing of a result is kept by the library
+
+REPARSE_TYPES = ["list", "List[dict]", "List[list]", "List[Any]", "tuple", "Tuple[list, dict]", "set", "dict", "Dict[str, list]",
+                 "Dict[str, Any]", "Any", "Union[list, dict]", "Optional[List[dict]]", "SC('S', Schema, None, a=(list,), b=(dict, {}))",
+                 "SC('S', DataClass, None, a=(List[dict],))"]
+REPARSE_INPUTS = ["'[{\"a\": [1]}, [2, [3]]]'", "'[[1, 2], [3]]'", "'{\"k\": [1, {\"z\": []}]}'", "'{\"a\": [[1]], \"b\": {\"c\": []}}'",
+                  "b'[{\"a\": []}]'", "'[]'", "'{}'", "'a,b'", "'a=1&b=2'", "'[1, \"x\"]'", "'{\"a\": [{\"a\": 1}]}'",
+                  "(('a', 1), ('b', 2))", "'[[\"a\", [1]]]'"]
+
+
+def _reparse(acc, ti, tier):
+    texpr = REPARSE_TYPES[ti]
+    t = eval(f"T({texpr})" if not texpr.startswith("SC(") else texpr, _NS)
+    for oi, opts in enumerate(OPTSETS[:5]):
+        o = _NS["Options"](**opts)
+        for vx in REPARSE_INPUTS:
+            for rounds in (1, 2):
+                acc.states += 1
+                outs = []
+                ok = True
+                for k in range(rounds + 1):
+                    st, y = call_guarded(lambda: _NS["type_transform"](ev(vx), t, options=o), wall_s=1.0, step_budget=400_000)
+                    acc.transitions += 1
+                    if st != "ok":
+                        ok = False
+                        break
+                    outs.append(canon(y))
+                    mutate_all_levels(y)
+                    if hasattr(type(y), "__parser__"):
+                        for v in (list(dict.values(y)) if isinstance(y, dict) else list(y.__dict__.values())):
+                            mutate_all_levels(v)
+                acc.evaluations += 1
+                acc.outcomes["reparse:" + ("ok" if ok else "rejected")] += 1
+                if not ok:
+                    continue
+                acc.nontrivial_add((texpr, oi, vx, rounds))
+                if any(c != outs[0] for c in outs[1:]):
+                    fp = f"C19|reparse|{texpr.split('(')[0] if texpr.startswith('SC(') else texpr}|{e1.value_shape(ev(vx))}|{','.join(sorted(opts)) or 'default'}"
+                    acc.violation(fp, f"type_transform({vx}, {texpr}) opts={opts}: parsed, the result mutated in place, parsed again -> "
+                                      f"the parses give {[short(c, 70) for c in outs]}",
+                                  "\n".join(["import sys", "sys.path.insert(0, '/verif')", "from utmc.ns import *", "from utmc.props import c19",
+                                             "from utmc.canon import canon", f"t = {'T(' + texpr + ')' if not texpr.startswith('SC(') else texpr}",
+                                             f"o = Options(**{opts!r})", "outs = []", f"for k in range({rounds + 1}):",
+                                             f"    y = type_transform({vx}, t, options=o); outs.append(canon(y)); c19.mutate_all_levels(y)",
+                                             "    if hasattr(type(y), '__parser__'):",
+                                             "        for v in (list(dict.values(y)) if isinstance(y, dict) else list(y.__dict__.values())): c19.mutate_all_levels(v)",
+                                             "print(outs); sys.exit(1 if any(c != outs[0] for c in outs[1:]) else 0)"]) + "\n")
+        if oi == 0:
+            acc.sample(dict(scenario="reparse", type=texpr, inputs=len(REPARSE_INPUTS)))
 
 
 # ------------------------------------------------------------------------------------------------ (c)
